@@ -49,7 +49,8 @@ Fixpoint lits_expr (e : expr) : list Z :=
 Fixpoint lits_stmt (s : stmt) : list Z :=
   match s with
   | SReturn e => lits_expr e
-  | SIf c t e => lits_expr c ++ lits_stmt t ++ lits_stmt e
+  | SIf c t e => if is_skip t && is_skip e then []          (* no code is generated for it (cs, and xcmp): its literals are not 'used' *)
+                 else lits_expr c ++ lits_stmt t ++ lits_stmt e
   | SWhile c b => lits_expr c ++ lits_stmt b
   | SSeq ss => flat_map lits_stmt ss
   | SAssign _ e => lits_expr e
